@@ -88,6 +88,7 @@ theorem SysInv.exec {sys : Sys} (h : SysInv sys) (a : Action) (hf : a.fresh = tr
     exact h.envStep (h.store.touchRes g k n l) fun t ht => (h.threads t ht).sameUsages (.touchRes _ g k n l)
   | stepW n o c => simp [Action.fresh] at hf
   | xaRaw n c => simp [Action.fresh] at hf
+  | ef n0 => simp [Action.fresh] at hf
   | start n =>
     simp only [Sys.exec]
     split
